@@ -66,6 +66,19 @@ func (ts *TermStore) Wrap(it IntTy, x *Term) *Term {
 		return x
 	}
 	m := ts.BigInt(pow2(it.bits))
+	// a value that can be off by at most one modulus (the usual case: a sum or difference of two in-range
+	// values) wraps with a comparison instead of a mod, which linear solvers handle far better
+	if x.lo != nil && x.hi != nil {
+		lo := new(big.Int).Sub(it.min(), pow2(it.bits))
+		hi := new(big.Int).Add(it.max(), pow2(it.bits))
+		if x.lo.Cmp(lo) >= 0 && x.hi.Cmp(hi) <= 0 {
+			r := ts.Ite(ts.Lt(x, ts.BigInt(it.min())), ts.Add(x, m), ts.Ite(ts.Lt(ts.BigInt(it.max()), x), ts.Sub(x, m), x))
+			if r.lo == nil || r.hi == nil {
+				ts.SetRange(r, it.min(), it.max())
+			}
+			return r
+		}
+	}
 	if !it.signed {
 		return ts.Mod(x, m)
 	}
